@@ -62,7 +62,8 @@ def typed(text, dt_uri, resolve):
     if dt_uri == XSD + "double":
         return ("float", repr(float(text)))
     if dt_uri == XSD + "boolean":
-        s = str(text).strip().lower()
+        # xsd:boolean lexical space: true, false, 1, 0 (case-sensitive); JSON true/false arrive as Python bools
+        s = {True: "true", False: "false"}.get(text, str(text).strip()) if isinstance(text, bool) else str(text).strip()
         if s in ("true", "1"):
             return ("bool", True)
         if s in ("false", "0"):
